@@ -22,5 +22,6 @@ CONSTANTS
   Decomps = {FALSE}
   Timeouts = {FALSE, TRUE}
   Shuts = {FALSE, TRUE}
+  MCGz = {}
   Heads = {FALSE, TRUE}
 CHECK_DEADLOCK FALSE
